@@ -282,3 +282,32 @@ pub fn scalar_value(k: &str, s: &Sc) -> Value {
     _ => panic!("scalar_value: bad {} {:?}", k, s),
   }
 }
+
+/// Source-text literal for a canonical scalar or a row/column vector of scalars (None when no spelling exists).
+pub fn lit(c: &CVal) -> Option<String> {
+  match c {
+    CVal::S(k, s) => match (k.as_str(), s) {
+      ("f64", Sc::F64(b)) => { let x = f64::from_bits(*b); if !x.is_finite() { return None; } Some(if x < 0.0 { format!("-{:?}", -x) } else { format!("{:?}", x) }) }
+      ("f32", Sc::F32(b)) => { let x = f32::from_bits(*b); if !x.is_finite() { return None; } Some(if x < 0.0 { format!("-{:?}<f32>", -x) } else { format!("{:?}<f32>", x) }) }
+      (_, Sc::U(x)) => Some(format!("{}<{}>", x, k)),
+      (_, Sc::I(x)) => Some(if *x < 0 { format!("-{}<{}>", x.unsigned_abs(), k) } else { format!("{}<{}>", x, k) }),
+      ("r64", Sc::R(n, d)) => Some(if *n < 0 { format!("-{}/{}", n.unsigned_abs(), d) } else { format!("{}/{}", n, d) }),
+      ("c64", Sc::C(r, i)) => { let (r, i) = (f64::from_bits(*r), f64::from_bits(*i)); if r < 0.0 || i < 0.0 || !r.is_finite() || !i.is_finite() { return None; } Some(format!("{:?}+{:?}i", r, i)) }
+      ("bool", Sc::B(b)) => Some(format!("{}", b)),
+      ("string", Sc::S(s)) => if s.contains('"') || s.contains('\\') { None } else { Some(format!("\"{}\"", s)) },
+      _ => None,
+    },
+    CVal::M(_, r, cc, e) => {
+      let parts: Option<Vec<String>> = e.iter().map(lit).collect();
+      let parts = parts?;
+      if *r == 1 { Some(format!("[{}]", parts.join(" "))) }
+      else if *cc == 1 { Some(format!("[{}]", parts.join("; "))) }
+      else {
+        let mut rows = Vec::new();
+        for i in 0..*r { rows.push((0..*cc).map(|j| parts[j * r + i].clone()).collect::<Vec<_>>().join(" ")); }
+        Some(format!("[{}]", rows.join("; ")))
+      }
+    }
+    _ => None,
+  }
+}
